@@ -21,4 +21,11 @@ for line in p.read_text().splitlines():
         else:
             print("NO MATCH on main for", m.group(2), s)
     out.append(line)
-p.write_text("\n".join(out) + "\n")
+seen, ded = set(), []
+for l in out:
+    k = re.sub(r" \[was [0-9a-f]+ on the family branch\]", "", l)
+    k = re.sub(r"^(fixed: property=\S+ )[0-9a-f]{7,40} ", r"\1", k)
+    if k in seen:
+        continue
+    seen.add(k); ded.append(l)
+p.write_text("\n".join(ded) + "\n")
